@@ -215,3 +215,27 @@ def tag_path(program, names, indices, instance_id, use_instance_ids):
         for idx in indices[k]:
             segs.append(("logical", "member_id", int(idx)))
     return segs
+
+
+def encode_logical(logical_type, value, padded=True):
+    """reference encoder of one logical segment (C-1.4.2)"""
+    code = 0x20 | (LOGICAL_CODES[logical_type] << 2)
+    if isinstance(value, bytes):
+        n = len(value)
+        raw = value
+    else:
+        n = 1 if value <= 0xFF else (2 if value <= 0xFFFF else 4)
+        raw = bytes([(value >> (8 * k)) & 0xFF for k in range(n)])
+    fmt = 0 if n == 1 else (1 if n == 2 else 2)
+    out = bytes([code | fmt])
+    if padded and n > 1:
+        out = out + b"\x00"
+    return out + raw
+
+
+def encode_request_path(class_code, instance, attribute=b""):
+    """word count + class, instance and (if truthy) attribute segments"""
+    path = encode_logical("class_id", class_code) + encode_logical("instance_id", instance)
+    if attribute:
+        path = path + encode_logical("attribute_id", attribute)
+    return bytes([len(path) // 2]) + path
